@@ -1,6 +1,7 @@
 //! Native driver for engine M: feeds a script of lines to real `AisParser`s and prints what came back.
 //! Script: `N` = start a new parser; `L <decode 0|1> <hex bytes of the line>`.
 //! Output, one line per `L`: `C|I <nf> <fn> <id|-> <fill> <msgtype> <message 0|1> <data hex> <msgdbg-hash>` |
+//! (followed by the decoded variant name, the channel as a code point or `-`, talker id and report type) |
 //! `E nmea` | `E checksum <expected> <found>` | `P <panic message>`.
 #[cfg(kani)]
 fn main() {}
@@ -80,8 +81,12 @@ fn main() {
                     Some(rest) => rest.split('(').next().unwrap_or("?").to_string(),
                     None => "-".to_string(),
                 };
+                let ch = match s.channel {
+                    Some(c) => format!("{}", c as u32),
+                    None => "-".to_string(),
+                };
                 println!(
-                    "{} {} {} {} {} {} {} {} {:016x} {}",
+                    "{} {} {} {} {} {} {} {} {:016x} {} {} {:?} {:?}",
                     tag,
                     s.num_fragments,
                     s.fragment_number,
@@ -91,7 +96,10 @@ fn main() {
                     if s.message.is_some() { 1 } else { 0 },
                     hex(&s.data),
                     h.finish(),
-                    variant
+                    variant,
+                    ch,
+                    s.talker_id,
+                    s.report_type
                 );
             }
         }
